@@ -426,8 +426,9 @@ def run(chk):
             o, (key, text), tainted = viol
             n_viol += 1
             if tainted:
-                chk.fail('add-listed-unit', f"after {o}: {text}", {'history': ops[:ops.index(o) + 1]})
-            else:
+                if not any(f.key == 'add-listed-unit' for f in chk.failures):
+                    chk.fail('add-listed-unit', f"after {o}: {text}", {'history': ops[:ops.index(o) + 1]})
+            elif sum(1 for f in chk.failures if f.key != 'add-listed-unit') < 3:
                 chk.fail(key, f"after {o}: {text}", {'history': ops[:ops.index(o) + 1]})
         elif i % 25 == 0:
             d = deepcopy_check(chk, W)
